@@ -30,6 +30,8 @@ func init() {
 		r.importing = "C15"
 		checkEngineInvariants(r, prog, "c15")
 		checkPegCombinators(r, prog, "c15")
+		r.importing = "C10"
+		checkRecoverDiscipline(r, prog, "c10")
 		r.importing = ""
 	})
 	register("C15", true, func(r *Run, prog *Program) {
@@ -68,6 +70,8 @@ func init() {
 			r.importing = "C18"
 			checkGetOpts(r, prog, a15, "c18") // … and with no budget unless one is asked for
 		}
+		r.importing = "C10"
+		checkRecoverDiscipline(r, prog, "c10") // an error recorded during the parse (an action's, an invalid encoding) rejects the input: every return of parse hands out the recorded errors
 		r.importing = ""
 		r.Technique = "translation validation peg↔table (imported from C20) + PEG well-formedness analyses on the rule table (undefined/duplicate/unreachable rules, left recursion, nullable repetition, label scope), entry anchoring, dispatch exhaustiveness, result-type inference for action type assertions, keyword/identifier boundary via FOLLOW sets"
 		r.Explain = "Decides the structural clauses of C15: the table is the grammar (C20's comparison), the table is a well-formed PEG whose recursive-descent interpretation is defined and terminates, both entry alternatives are anchored at end of input and the entry point / invalid-UTF-8 / recover options are never set by module code, every node type of the table is dispatched by parseExpr, every single-value type assertion in an action is satisfied by the inferred dynamic types of the label it reads on error-free runs, and no keyword literal can be directly followed by an identifier character. NOT decided: that pigeon's combinator engine interprets the table as PEG, and accept/reject on concrete strings against an independent recogniser."
